@@ -255,6 +255,8 @@ func genWire(r *Rand, g GenCfg) Plan {
 		add(XStep{Op: "reencode", Tok: 0, Kind: "signature"})
 		add(XStep{Op: "reencode", Tok: 1, Kind: "signature"})
 		add(XStep{Op: "reencode", Tok: r.Intn(2), Kind: "trailing"})
+		add(XStep{Op: "reencode", Tok: 0, Kind: "lex_all", Val: 0})
+		add(XStep{Op: "reencode", Tok: 1, Kind: "lex_all", Val: r.Intn(2)})
 		for i := 0; i < 1+n/4; i++ {
 			add(XStep{Op: "reencode", Tok: r.Intn(2), Kind: "extra_elem", At: r.Intn(1000), Val: r.Intn(64)})
 		}
